@@ -123,6 +123,15 @@ def _run_case(case):
     m[m == INF] = np.inf
     if _SHAPE.get("unit") == "ln2":
         m = m * np.log(2.0)
+    else:
+        # the same logical costs in other element types (network outputs are float32): every alignment has exactly T frames, so a
+        # common offset / scale changes no arg-min.  float32: 2^24 + 2c (exactly representable; sums exact in float64 only);
+        # int64: the integers themselves (only without +inf).  The trace keeps the logical costs.
+        variant = (sum((i + 3) * int(v) for i, v in enumerate(vals)) + 7 * len(labels) + blank) % 4
+        if variant == 1:
+            m = (m * 2 + 16777216.0).astype(np.float32)
+        elif variant == 2 and INF not in vals:
+            m = m.astype(np.int64)
     rec = {"cm": [list(vals[i * nc:(i + 1) * nc]) for i in range(t)], "labels": list(labels), "blank": blank,
            "outcome": "ok", "path": [], "seq": [], "pos": []}
     outs = []
@@ -152,11 +161,12 @@ def warm():
     """compile the numba kernel once in the parent so that forked workers inherit it"""
     from pero_ocr.core.force_alignment import force_align, align_text
     m = np.array([[0.0, 1.0], [1.0, 0.0], [0.0, np.inf]])
-    try:        # only the compilation matters here; whatever the real code does with this input is judged in the cases
-        force_align(m, [0], 1)
-        align_text(m, np.array([0]), 1)
-    except Exception:
-        pass
+    for mm in (m, m.astype(np.float32), np.array([[0, 1], [1, 0], [0, 2]], dtype=np.int64)):
+        try:        # only the compilation matters here; whatever the real code does with this input is judged in the cases
+            force_align(mm.copy(), [0], 1)
+            align_text(mm.copy(), np.array([0]), 1)
+        except Exception:
+            pass
 
 
 def execute(c, cases):
